@@ -10,6 +10,7 @@ import (
 	"encoding/hex"
 	"flag"
 	"fmt"
+	"io"
 	"math/rand"
 	"reflect"
 	"runtime"
@@ -56,7 +57,7 @@ func suiteAlloc(args []string) {
 	cw := newCaseWriter(*dir)
 	defer cw.close()
 	rep := &Report{Suite: "alloc", Seed: *seed, Distribution: map[string]int{}}
-	rep.Rule = fmt.Sprintf("one evaluation = one Decode call measured with runtime.MemStats.TotalAlloc; inputs: valid messages and every item header of them with its length replaced by 2^16, 2^20, 2^24, 2^31, 2^32-1 (plus truncations of those); bound: %d*len + %d; non-trivial = a planted length", allocPerByte, allocConst)
+	rep.Rule = fmt.Sprintf("one evaluation = one Decode call measured with runtime.MemStats.TotalAlloc; inputs: valid messages and every item header of them with its length replaced by 2^16, 2^20, 2^24, 2^31, 2^32-1 (plus truncations of those); one large value followed by many small ones in one message, and small messages after a 4 MiB one on the same Decoder; bound: %d*len + %d; non-trivial = a planted length", allocPerByte, allocConst)
 	debug.SetGCPercent(-1)
 	defer debug.SetGCPercent(100)
 	planted := []uint32{1 << 16, 1 << 20, 1 << 24, 1 << 31, 0xffffffff, 0xfffffff8}
@@ -160,6 +161,71 @@ func suiteAlloc(args []string) {
 				rep.Distribution[fmt.Sprintf("planted:type%d", it.typ)]++
 				if it.hdrEnd+4 < len(m) && pl == 1<<24 {
 					check(tn, m[:it.hdrEnd+r.Intn(len(m)-it.hdrEnd)], "planted length, truncated")
+				}
+			}
+		}
+	}
+	// one legitimately large value, then many small ones - in one message, and in a later message on the same Decoder:
+	// memory must follow the bytes of the item / message being read, not the largest value seen so far
+	for _, big := range []int{64 << 10, 1 << 20} {
+		for _, count := range []int{40, 400} {
+			if stopped {
+				break
+			}
+			req := kmip.Request{Header: kmip.RequestHeader{Version: kmip.ProtocolVersion{Major: 1, Minor: 4}, BatchCount: int32(count)}}
+			for j := 0; j < count; j++ {
+				id := []byte{byte(j), byte(j >> 8)}
+				if j == 0 {
+					id = bytes.Repeat([]byte{0x5a}, big)
+				}
+				req.BatchItems = append(req.BatchItems, kmip.RequestBatchItem{Operation: kmip.OPERATION_GET, UniqueID: id,
+					RequestPayload: kmip.GetRequest{UniqueIdentifier: fmt.Sprintf("key-%d", j)}})
+			}
+			_, b := implEncode(&req)
+			if b == nil {
+				continue
+			}
+			check("Request", b, fmt.Sprintf("valid request: a %d-byte batch item id followed by %d small items", big, count-1))
+			rep.Nontrivial++
+			rep.Distribution["large-then-small"]++
+		}
+	}
+	if !stopped {
+		bigReq := kmip.Request{Header: kmip.RequestHeader{Version: kmip.ProtocolVersion{Major: 1, Minor: 4}, BatchCount: 1},
+			BatchItems: []kmip.RequestBatchItem{{Operation: kmip.OPERATION_GET, UniqueID: bytes.Repeat([]byte{0x5a}, 4<<20), RequestPayload: kmip.GetRequest{UniqueIdentifier: "k"}}}}
+		smallReq := kmip.Request{Header: kmip.RequestHeader{Version: kmip.ProtocolVersion{Major: 1, Minor: 4}, BatchCount: 1},
+			BatchItems: []kmip.RequestBatchItem{{Operation: kmip.OPERATION_GET, UniqueID: []byte{1}, RequestPayload: kmip.GetRequest{UniqueIdentifier: "k"}}}}
+		_, bb := implEncode(&bigReq)
+		_, sb := implEncode(&smallReq)
+		if bb != nil && sb != nil {
+			for _, src := range []string{"bytes.Reader", "plain reader"} {
+				var rdr io.Reader = bytes.NewReader(append(append([]byte(nil), bb...), bytes.Repeat(sb, 5)...))
+				if src == "plain reader" {
+					rdr = plainReader{rdr}
+				}
+				d := kmip.NewDecoder(rdr)
+				var first kmip.Request
+				if err := d.Decode(&first); err != nil {
+					continue
+				}
+				for k := 0; k < 5; k++ {
+					var m0, m1 runtime.MemStats
+					var next kmip.Request
+					runtime.ReadMemStats(&m0)
+					err := d.Decode(&next)
+					runtime.ReadMemStats(&m1)
+					a := m1.TotalAlloc - m0.TotalAlloc
+					rep.Evaluations++
+					rep.Nontrivial++
+					rep.Distribution["small-after-large-on-one-decoder"]++
+					bound := uint64(allocPerByte*len(sb) + allocConst)
+					if err != nil || a > bound {
+						rep.Violations = append(rep.Violations, map[string]interface{}{"kind": "alloc", "type": "Request", "input_len": len(sb), "allocated": a, "bound": bound, "decode_error": fmt.Sprint(err),
+							"what": fmt.Sprintf("a %d-byte request decoded on a Decoder (%s) that had decoded a 4 MiB request before (message %d after it)", len(sb), src, k+1), "bytes": hexBytes(sb)})
+						runtime.GC()
+						debug.FreeOSMemory()
+						break
+					}
 				}
 			}
 		}
